@@ -5,7 +5,7 @@
 Not applicable part: real forked worker processes contending through OS-level multiprocessing primitives."""
 import z3
 from props.common import *   # noqa
-from engine import conc, fault, symfs
+from engine import conc, fault, symfs, crash
 from engine.pathsym import PathSym, par_explore
 from engine.universe import World
 from props import C07, C12
@@ -17,15 +17,26 @@ def seq_args(tier):
     return a
 
 
-def both_modes(ps, wt, wm, menu_t, menu_m):
+def both_modes(ps, wt, wm, menu_t, menu_m, with_fault=False):
     n = ps.choose(step.CALLV, 0, len(menu_t))
     out = []
+    hits = []
     for w, menu in ((wt, menu_t), (wm, menu_m)):
-        w.build(ps)
+        F = w.build(ps)
         s = w.store()
         call = menu[n]
         if call.needs is not None:
             ps.assume(call.needs(w))
+        if with_fault:
+            # the same I/O error (operation index = one symbolic variable) strikes the call in both modes
+            hit = []
+            hits.append(hit)
+
+            def inj(idx, kind, path, hit=hit):
+                if not hit and ps.decide(fault.FAULTV == idx):
+                    hit.append((idx, kind, path))
+                    raise OSError(5, "Input/output error (injected)", path)
+            F.injector = inj
         try:
             val = conc.summ(call.run(w, s))
             res = "ok"
@@ -33,10 +44,16 @@ def both_modes(ps, wt, wm, menu_t, menu_m):
             raise
         except Exception as e:   # noqa
             res, val = type(e).__name__, str(e)[:120]
+        if with_fault:
+            F.injector = None
+            if not hit:
+                ps.constrain(fault.FAULTV >= F.nops)
         post = w.post()
         out.append((res, val, post, w.instance_problems(s), call))
     (rt, vt, pt, it, call), (rm, vm, pm, im, _) = out
     bad = []
+    if with_fault and bool(hits[0]) != bool(hits[1]):
+        bad.append(("file-system-operations-differ-between-modes", (hits[0], hits[1])))
     if rt != rm:
         bad.append(("results-differ-between-modes", "threading=%s multiprocessing=%s %s" % (rt, rm, vm if rm != "ok" else "")))
     elif rt == "ok" and vt != vm and not isinstance(call, step.StoreMeta):
@@ -48,9 +65,10 @@ def both_modes(ps, wt, wm, menu_t, menu_m):
         bad.append(("store-problems-differ-between-modes", (pt["problems"][:2], pm["problems"][:2])))
     for p in im:
         bad.append(("multiprocessing-mode:" + p[0], p[1:]))
-    rec = dict(call=call.label, roles=call.roles, rt=rt, rm=rm, bad=bad, n=n)
+    rec = dict(call=call.label, roles=call.roles, rt=rt, rm=rm, bad=bad, n=n,
+               fault=(hits[0][0][1], crash.addr_kind(hits[0][0][2])) if with_fault and hits[0] else None)
     if bad:
-        rec["vals"] = ps.model_values(wt.statevars + [step.CALLV, step.OFFV])
+        rec["vals"] = ps.model_values(wt.statevars + [step.CALLV, step.OFFV] + ([fault.FAULTV] if with_fault else []))
         rec["relation"] = call.relation(wt, rec["vals"])
     return rec
 
@@ -66,6 +84,60 @@ def explore_seq(tier):
         return recs, ps.st.as_dict()
     n = len(full_menu(World(**a)))
     return par_explore(worker, [list(range(r, n, 16)) for r in range(16) if r < n])
+
+
+def fault_args(tier):
+    return dict(pids=[P_A, "b"], contents=[C_ONE, C_MULTI], formats=[None], sym_dirs=False,
+                threading_mod=fault.SEQ_THREADING, multiprocessing_mod=fault.SEQ_MULTIPROCESSING)
+
+
+def fault_menu(w):
+    m = []
+    for i in range(w.NP):
+        for j in range(w.NC):
+            m.append(step.Tag(i, j))
+        for k in range(w.NK):
+            m.append(step.StoreObj(i, k))
+        m.append(step.Delete(i))
+        m.append(step.StoreMeta(i, 0, None))
+        m.append(step.DeleteMeta(i, None, all_docs=True))
+    return m
+
+
+def explore_seq_faults(tier):
+    """the same call struck by the same I/O error in both modes: error handling (the revert of a failed tagging, the
+    release of the identifiers) runs through the mode's own branches as well"""
+    a = fault_args(tier)
+
+    def worker(idx):
+        wt, wm = World(**a), World(mp=True, **a)
+        mt, mm = fault_menu(wt), fault_menu(wm)
+        ps = PathSym(wt.inv() + [z3.Or([step.CALLV == n for n in idx]), fault.FAULTV >= 0])
+        recs = ps.explore(lambda p: both_modes(p, wt, wm, mt, mm, with_fault=True))
+        return recs, ps.st.as_dict()
+    n = len(fault_menu(World(**a)))
+    return par_explore(worker, [list(range(r, n, 16)) for r in range(16) if r < n])
+
+
+def replay_seq_fault(tier, payload):
+    a = dict(fault_args(tier), mode="passthrough")
+    wt, wm = World(**a), World(mp=True, **a)
+    try:
+        pins = []
+        for v in wt.statevars + [step.CALLV, step.OFFV, fault.FAULTV]:
+            if str(v) in payload["vals"]:
+                x = payload["vals"][str(v)]
+                pins.append(v == (z3.BoolVal(x) if isinstance(x, bool) else z3.IntVal(x)))
+        ps = PathSym(wt.inv() + pins)
+        r = ps.explore(lambda p: both_modes(p, wt, wm, fault_menu(wt), fault_menu(wm), with_fault=True))[0]
+        hit = [b for b in r["bad"] if b[0] in payload["clauses"]]
+        return bool(hit), ("passthrough replay on the real file system (one store per mode built by the same history, "
+                           "USE_MULTIPROCESSING=True for the second; EIO injected at file-system operation %s of the "
+                           "call): %s -> threading=%s multiprocessing=%s; failing=%s" % (
+                               payload["vals"].get("fault_at"), r["call"], r["rt"], r["rm"], r["bad"]))
+    finally:
+        wt.cleanup()
+        wm.cleanup()
 
 
 def replay_seq(tier, payload):
@@ -170,6 +242,8 @@ def main(tier, replay_payload=None):
             return replay_seq(tier, p)
         if p.get("harness") == "independence":
             return replay_independence(p)
+        if p.get("harness") == "c16fault":
+            return replay_seq_fault(tier, p)
         mod = C07 if p.get("family") == "C07" else C12
         return conc.replay_schedule(mod.W_ARGS, mod.scenarios_for(tier), p["k"], p["log"], p["bound"],
                                     p["clauses"][0], mp=True)
@@ -191,6 +265,19 @@ def main(tier, replay_payload=None):
                     r["roles"], "+".join(cl), r["rt"], r["rm"], r["relation"])
                 run.fail(sig, dict(call=r["call"], failing=r["bad"], pre_state=r["vals"]),
                          dict(harness="c16seq", vals=r["vals"], clauses=cl))
+    for recs, st in explore_seq_faults(tier):
+        run.add_stats(st)
+        for r in recs:
+            run.reach["faulted:" + ("no fault" if not r["fault"] else r["rm"])] += 1
+            run.case(("faulted", r["roles"], r["fault"], r["rt"], r["rm"]),
+                     dict(call=r["call"], io_error_at=r["fault"], threading=r["rt"], multiprocessing=r["rm"]))
+            run.oblige(not r["bad"])
+            if r["bad"]:
+                cl = sorted(set(b[0] for b in r["bad"]))
+                sig = "%s in both modes, one I/O error at %s :: %s :: threading=%s multiprocessing=%s :: pre-state: %s" % (
+                    r["roles"], r["fault"], "+".join(cl), r["rt"], r["rm"], r["relation"])
+                run.fail(sig, dict(call=r["call"], failing=r["bad"], pre_state=r["vals"], io_error_at=r["fault"]),
+                         dict(harness="c16fault", vals=r["vals"], clauses=cl))
     from engine import battery
     battery.validate(run)
     independence(run)
@@ -207,7 +294,9 @@ def main(tier, replay_payload=None):
         "FileHashStore._release_object_locked_cids", "FileHashStore._synchronize_referenced_locked_pids",
         "FileHashStore._release_reference_locked_pids", "FileHashStore._check_object_locked_cids",
         "FileHashStore._check_reference_locked_pids"])
-    run.bounds = dict(sequential="universe and menu of C05/C11, both modes in one path", schedules="C07 and C12 pair "
+    run.bounds = dict(sequential="universe and menu of C05/C11, both modes in one path",
+                      sequential_with_io_error="tag_object / store_object / delete_object / store_metadata / "
+                      "delete_metadata on two pids, one EIO at a symbolic operation index, both modes in one path", schedules="C07 and C12 pair "
                       "scenarios, preemption bound 1, multiprocessing code paths on scheduler-aware model primitives",
                       mode_selector="os.getenv('USE_MULTIPROCESSING') in the environment model")
     run.explanation = ("(i) For every Inv state and every call of the C05/C11 menu the real method runs twice inside one "
